@@ -322,7 +322,7 @@ pub fn exec(sc: &Scenario, st: &mut Stats) -> Option<Violation> {
             }
             Op::Cold { .. } => {
                 st.fault(Fault::ColdRestart);
-                r.rookie = Some((on(Side::Reference, || build_spec(&spec)), 0, r.t));
+                r.rookie = Some((on(Side::Reference, || crate::sut::build_ref(&spec)), 0, r.t));
                 if r.t == 0 {
                     r.last_fault = Fault::Clean;
                 }
@@ -393,7 +393,7 @@ pub fn generate(rng: &mut Rng, tier: Tier, long_uptime: bool) -> Scenario {
     } else {
         *rng.pick(&[Mode::Scalar, Mode::Bar, Mode::Item])
     };
-    let spec = NodeSpec { kind, params: Params::new(n, 1, 1, 2.0), mode };
+    let spec = NodeSpec { kind, params: Params::new(n, 1, 1, 2.0), mode, dflt: false };
     let need = need(kind, n) as usize;
     let mut ops = vec![];
     let mut desc = World::random_desc(rng);
